@@ -25,9 +25,21 @@ handler's unsubscribe sends UNSUBSCRIBE - with the next sequential id.
 A reply / event / invoke step may carry ``"then": <request step>``: that request is issued from INSIDE the callback the
 router message triggers (completion callback of the answered request, its on_progress handler, the event handler, the
 endpoint) - i.e. while the session is still dispatching the message; ``"cut": f`` delivers a reply in two reads.
+
+Re-entrant requests: a request step may carry ``"inside": [<reply/event/invoke steps>]``: those router messages are handed to
+``session.onMessage()`` from INSIDE the transport's ``send()`` of that request (an in-process router reacting synchronously), and
+their handlers (``then``) issue further requests while the outer API call has not returned yet.  Nothing runs the event loop /
+clock inside ``send()``; a terminal reply to ANOTHER request (whose completion callback would only run from the loop on asyncio)
+is delivered inside ``send()`` on Twisted and right after the API call returned on asyncio.
+
+Mapped error classes: ``cfg["defs"] = [{"uri", "cls", "how"}]`` registers exception classes with ``session.define()``; two URIs are
+mapped by the library itself (DEFAULT_MAPPED).  An ERROR reply bearing a mapped URI must still complete its request exactly once
+with an error: an instance of the mapped class built from the reply's payload when the constructor accepts it, else (or anyway)
+an ApplicationError carrying the reply's URI/args/kwargs.
 """
 
 import copy
+import inspect
 
 import txaio
 
@@ -57,6 +69,73 @@ PUBLISH_FLAG_OPTS = ("acknowledge", "exclude_me", "retain")
 # router-to-router forwarding chain, disclosed caller identity of a forwarded call)
 PUBLISH_PASS_OPTS = ("transaction_hash", "forward_for")
 CALL_PASS_OPTS = ("transaction_hash", "forward_for", "caller", "caller_authid", "caller_authrole")
+
+# error URIs the library maps to an exception class without any define() (BaseSession.__init__): plain Exception subclasses
+DEFAULT_MAPPED = {"wamp.error.invalid_payload": ("autobahn.wamp.exception", "SerializationError"),
+                  "wamp.error.payload_size_exceeded": ("autobahn.exception", "PayloadExceededError")}
+
+# constructor signatures of the exception classes a case may define() - reference functions: the oracle binds the reply's payload
+# to THESE (never to the class under construction by the library) to decide "does the payload fit" and what the instance must hold
+ERROR_SIGS = {
+    "fixed2": lambda balance, required: None,
+    "kwonly": lambda *, code, reason="unknown": None,
+    "opt": lambda msg=None, code=0: None,
+    "any": lambda *a, **k: None,
+    "plain": lambda *a: None,              # class without a constructor of its own: positional payload only
+    "raising": None,                       # constructor raises whatever it is given
+}
+ERROR_CLASS_NAMES = sorted(ERROR_SIGS)
+
+
+def error_bind(cname, args, kwargs):
+    """None when the payload does not fit the constructor of class ``cname``, else {parameter: value} as the instance records it."""
+    sig = ERROR_SIGS[cname]
+    if sig is None:
+        return None
+    try:
+        b = inspect.signature(sig).bind(*args, **kwargs)
+    except TypeError:
+        return None
+    b.apply_defaults()
+    return {k: (list(v) if isinstance(v, tuple) else v) for k, v in b.arguments.items()}
+
+
+def make_error_class(cname, uri, how):
+    """A fresh exception class per session (the decorator marks the class object itself)."""
+    from autobahn import wamp
+    if cname == "fixed2":
+        class E(Exception):
+            def __init__(self, balance, required):
+                Exception.__init__(self, balance, required)
+                self.c04 = {"balance": balance, "required": required}
+    elif cname == "kwonly":
+        class E(Exception):
+            def __init__(self, *, code, reason="unknown"):
+                Exception.__init__(self, code, reason)
+                self.c04 = {"code": code, "reason": reason}
+    elif cname == "opt":
+        class E(Exception):
+            def __init__(self, msg=None, code=0):
+                Exception.__init__(self, msg, code)
+                self.c04 = {"msg": msg, "code": code}
+    elif cname == "any":
+        class E(Exception):
+            def __init__(self, *a, **k):
+                Exception.__init__(self, *a)
+                self.c04 = {"a": list(a), "k": dict(k)}
+    elif cname == "plain":
+        class E(Exception):
+            pass
+    elif cname == "raising":
+        class E(Exception):
+            def __init__(self, *a, **k):
+                raise ValueError("C04: this exception class refuses every payload")
+    else:
+        raise ValueError(cname)
+    E.__name__ = E.__qualname__ = "C04Error_%s" % cname
+    if how == "decorated":
+        E = wamp.error(uri)(E)
+    return E
 
 
 # ---------------------------------------------------------------------------------------------
@@ -228,6 +307,7 @@ class Req:
         self.nested_hooked = False
         self.group = None          # ObjGroup when issued through subscribe(obj) / register(obj)
         self.reply_ctx = None
+        self.reentrant = False     # issued while another request was inside send(), or the request whose send() was re-entered
 
 
 ENC_ALGO = "x_c04"
@@ -319,6 +399,10 @@ class SyncTransport:
         if rq is None or len(msgs) != 1 or not isinstance(msgs[0], list) or len(msgs[0]) < 2 or msgs[0][0] != REQ_CODE[rq.kind]:
             return
         rq.wid = msgs[0][1]
+        if plan.get("inside"):
+            run.run_inside(rq, plan)
+        if plan["reply"] is None:
+            return
         reply, args, kwargs = run.build_reply(rq, plan["reply"])
         plan["sent"] = (reply, args, kwargs)
         for m in real._serializer.unserialize(rp.dumps(reply), rp.binary):
@@ -368,6 +452,12 @@ class Run:
         self.groups = []
         self.nested_issued = []
         self.tolerated = dict.fromkeys(KINDS, 0)     # records the library kept after a subscribe/register whose send() raised (grey zone)
+        self.inside = None                           # the request whose send() is executing right now (router messages delivered re-entrantly)
+        self.inside_site = None
+        self.inside_invids = set()
+        self.reentrant_done = False
+        self.defs = {}                               # error URI -> (class name, class) registered with session.define()
+        self.misfit_errors = 0                       # ERROR replies delivered whose mapped class cannot be built from the payload
 
     # -- reporting ------------------------------------------------------------------------------
     def v(self, key, what, **detail):
@@ -394,6 +484,13 @@ class Run:
         if cfg.get("codec"):
             self.codec = C04Codec()
             self.s.set_payload_codec(self.codec)
+        for d in cfg.get("defs") or []:
+            ecls = make_error_class(d["cls"], d["uri"], d.get("how", "decorated"))
+            if d.get("how", "decorated") == "decorated":
+                self.s.define(ecls)
+            else:
+                self.s.define(ecls, d["uri"])
+            self.defs[d["uri"]] = (d["cls"], ecls)
         start_at = cfg.get("id_start")
         if start_at is not None:
             gen = getattr(self.s, "_request_id_gen", None)
@@ -504,6 +601,8 @@ class Run:
         if st["op"] == "unsubscribe":
             target = self.reqs.get(st["of"])
             local = bool(target is not None and target.live and target.obj is not None and self.attached(target.assigned, but=target))
+        if st.get("inside") and not local and not st.get("sync"):
+            return self.do_reentrant_request(st, snap)
         if st.get("sync") and not local:
             return self.do_sync_request(st, snap)
         rq = self.api_call(st)
@@ -635,6 +734,108 @@ class Run:
             mode, args, kwargs, st, msg = m.reply_ctx
             self.check_completion(m, mode, args, kwargs, st, m.spec.get("opts") or {}, msg)
             self.R.count("object_form_completions_compared")
+
+    # -- router messages delivered from INSIDE send(), their handlers issue further requests (re-entrant API calls) --------------
+    def deliver(self, msg, seg=None):
+        """Hand one router message to the session: over the wire, or - while a request is inside send() - straight into onMessage(),
+        parsed by the transport's own serializer, as an in-process router does.  An exception of onMessage propagates out of send()."""
+        if self.inside is None:
+            return self.rp.send(msg, seg=seg) if seg is not None else self.rp.send(msg)
+        rp = self.rp
+        for m in self.s._transport._serializer.unserialize(rp.dumps(msg), rp.binary):
+            self.s.onMessage(m)
+
+    def dispatch(self, st):
+        op = st["op"]
+        if op == "reply":
+            self.do_reply(st)
+        elif op == "event":
+            self.do_event(st)
+        elif op == "invoke":
+            self.do_invoke(st)
+        else:
+            raise ValueError(op)
+
+    @staticmethod
+    def inside_site_of(rq, st):
+        if st["op"] == "reply":
+            own = st["to"] == rq.label
+            return ("progress-own" if own else "progress-other") if st["mode"] == "progress" else "completion-other"
+        return "event" if st["op"] == "event" else "invocation"
+
+    def run_inside(self, rq, plan):
+        """Called by SyncTransport.send() of request ``rq`` after the request has reached the wire: check the request's id FIRST (wire
+        order), then deliver the scripted router messages without ever running the loop / clock."""
+        R = self.R
+        R.count("reentrant_sends")
+        self.verify_request(rq, None, msgs=plan["msgs"], where="request")
+        plan["verified"] = True
+        if self.dead:
+            return
+        acked = rq.kind != "publish" or bool((rq.spec.get("opts") or {}).get("acknowledge"))
+        if acked and rq.status == "new":
+            rq.status = "pending"              # record-before-send: the request is outstanding from now on (api_call sets the future later)
+        rq.reentrant = True
+        world = self.rp.world
+        self.inside = rq
+        world.settle = lambda: None            # nothing runs the event loop / reactor while send() executes
+        try:
+            for st in plan["inside"]:
+                if self.dead:
+                    break
+                site = self.inside_site_of(rq, st)
+                if site == "completion-other" and not txaio.using_twisted:
+                    plan["deferred"].append(st)     # asyncio: done-callbacks only run from the loop, i.e. after send() has returned
+                    continue
+                if st["op"] == "invoke":
+                    self.inside_invids.add(st["invid"])
+                self.inside_site = site
+                self.dispatch(dict((k, v) for k, v in st.items() if k != "cut"))
+                R.count("messages_delivered_inside_send")
+        finally:
+            del world.settle
+            self.inside = None
+            self.inside_site = None
+
+    def do_reentrant_request(self, st, snap):
+        """A request during whose send() the router delivers further messages; the handlers issue requests of their own before the outer
+        API call returns.  Every request must still carry a fresh sequential id (wire order: outer first) and complete with its own reply."""
+        R = self.R
+        if not isinstance(self.s._transport, SyncTransport):
+            self.s._transport = SyncTransport(self.s._transport, self)
+        plan = self.sync_plan = {"label": st["n"], "reply": None, "msgs": None, "sent": None, "inside": st["inside"], "deferred": [],
+                                 "verified": False}
+        try:
+            rq = self.api_call(st)
+        finally:
+            self.sync_plan = None
+        if rq is None:
+            return
+        kind = rq.kind
+        if not plan["verified"]:
+            self.verify_request(rq, None, msgs=plan["msgs"] if plan["msgs"] is not None else [], where="request")
+        if self.dead:
+            return
+        self.nontrivial = True
+        self.reentrant_done = True
+        self.world_settle()
+        if rq.outcome is not None and rq.outcome.results:
+            self.v("%s/request/completed-before-reply" % kind, "future completed before any reply was sent", results=short(rq.outcome.results))
+        f = self.failed()
+        if f:
+            self.v("%s/reentrant-request/transport-failed" % kind, "transport failed during a request whose send() delivered router messages: %r" % (f,))
+            self.dead = True
+            return
+        # endpoints invoked inside send() answer through the loop on asyncio: their YIELD shows up only now
+        left = [m for m in self.take_nested(self.rp.recv(), "after-send")
+                if not (isinstance(m, list) and len(m) > 1 and m[0] == 70 and m[1] in self.inside_invids)]
+        if left:
+            self.v("%s/reentrant-request/unexpected-wire-message" % kind, "unexpected messages after the request returned", msgs=short(left))
+        self.check_tables("after re-entrant %s request" % kind)
+        for st2 in plan["deferred"]:
+            if self.dead:
+                break
+            self.dispatch(st2)
 
     def do_sync_request(self, st, snap):
         """The router's reply re-enters onMessage() from inside the transport's send(), i.e. before the API call has returned."""
@@ -840,6 +1041,12 @@ class Run:
             self.verify_request(nrq, None, msgs=mine, where="nested-request")
             self.R.count("nested_requests_verified")
             self.R.seen("nested_sites", "%s-from-%s-of-%s" % (nrq.kind, site, where))
+            if self.inside is not None:
+                nrq.reentrant = True
+                self.R.count("reentrant_requests_verified")
+                okind = self.inside.kind if self.inside.status != "new" or self.inside.kind != "publish" else "publish_unack"
+                nkind = "publish_unack" if nrq.status == "unack" else nrq.kind
+                self.R.seen("reentrant_sites", "%s-inside-send-of-%s-via-%s" % (nkind, okind, self.inside_site))
         return rest
 
     def world_settle(self):
@@ -864,16 +1071,24 @@ class Run:
             self.v("%s/request/id-out-of-range" % kind, "request id %r is not within 1..2^53" % (wid,), msg=short(m))
         else:
             expect = 1 if self.last_id == MAXID else self.last_id + 1
+            # mechanism class: the request was issued while another request was still inside the transport's send()
+            ctx = "/inside-send" if self.inside is not None and self.inside is not rq else ""
             if wid in self.seen_ids and not self.cfg.get("id_start"):
-                self.v("%s/request/id-reused" % kind, "request id %d was already used in this session" % wid, msg=short(m))
+                self.v("%s/request/id-reused%s" % (kind, ctx), "request id %d was already used in this session%s" % (
+                    wid, " (by the request whose send() is still executing: %s id %r)" % (self.inside.kind, self.inside.wid) if ctx else ""), msg=short(m))
+                self.dead = True          # two requests under one id: from here on replies cannot be attributed, nothing more is asserted
             elif self.gap_ok:
                 if not (wid >= expect):
                     self.v("%s/request/id-not-fresh-after-send-failure" % kind, "request id %d after ids up to %d" % (wid, self.last_id))
             elif wid != expect:
-                self.v("%s/request/id-not-sequential" % kind, "request id %d, expected %d (sequential from 1 within the session)" % (wid, expect),
+                self.v("%s/request/id-not-sequential%s" % (kind, ctx), "request id %d, expected %d (sequential from 1 within the session)" % (wid, expect),
                        msg=short(m))
             if self.local_unsubs:
                 self.R.count("ids_checked_after_local_unsubscribe")
+            if ctx:
+                self.R.count("ids_checked_inside_send")
+            elif self.reentrant_done:
+                self.R.count("ids_checked_after_reentrant_request")
             if wid == MAXID:
                 self.R.count("ids_at_2^53")
             if self.last_id == MAXID and wid == 1:
@@ -1020,6 +1235,10 @@ class Run:
             tail.append(args if args is not None else [])
             if kwargs is not None:
                 tail.append(kwargs)
+        if mode == "error":
+            mapped = self.mapped_class(st["error"])
+            if mapped is not None and self.error_fit(mapped[0], args or [], kwargs or {}) is None:
+                self.misfit_errors += 1       # the library reports the failed construction through onUserError: expected, see finish()
         enc = {}
         if self.codec is not None and st.get("enc") and (mode == "error" or rq.kind == "call"):
             # the peer used payload transparency too: details carry enc_*, the payload is one octet string
@@ -1036,6 +1255,20 @@ class Run:
         if rq.kind in ("publish", "subscribe", "register"):
             return [OK_CODE[rq.kind], rq.wid, st["assigned"]], None, None
         return [OK_CODE[rq.kind], rq.wid], None, None
+
+    def mapped_class(self, uri):
+        """(class name, class) the session maps the error URI to: define()d by the case, or mapped by the library itself."""
+        if uri in self.defs:
+            return self.defs[uri]
+        if uri in DEFAULT_MAPPED:
+            import importlib
+            mod, name = DEFAULT_MAPPED[uri]
+            return ("plain", getattr(importlib.import_module(mod), name))
+        return None
+
+    @staticmethod
+    def error_fit(cname, args, kwargs):
+        return error_bind(cname, args, kwargs)
 
     @staticmethod
     def shape_class(args, kwargs):
@@ -1062,7 +1295,7 @@ class Run:
         what = "reply-%s" % mode
         opts = rq.spec.get("opts") or {}
         snap = self.snap()
-        if st.get("then") and st["then"]["n"] not in self.reqs and rq.fut is not None:
+        if st.get("then") and st["then"]["n"] not in self.reqs and (rq.fut is not None or mode == "progress"):
             self.arm_nested(rq, "progress" if mode == "progress" else "completion", st["then"])
         cut = st.get("cut")
         if cut is not None:
@@ -1070,12 +1303,16 @@ class Run:
             self.rp.send(msg, seg=lambda d: [d[:max(1, min(len(d) - 1, int(len(d) * cut)))], d[max(1, min(len(d) - 1, int(len(d) * cut))):]])
             R.count("replies_split_across_reads")
         else:
-            self.rp.send(msg)
+            self.deliver(msg)
         self.nontrivial = True
         f = self.failed()
         if f:
             cls = ""
-            if rq.kind == "call":
+            mapped = self.mapped_class(st["error"]) if mode == "error" else None
+            if mapped is not None:
+                # mechanism class: the ERROR's URI is mapped to an exception class x can that class be built from the payload
+                cls = "/mapped-error-class/%s" % ("payload-fits" if self.error_fit(mapped[0], args or [], kwargs or {}) is not None else "payload-does-not-fit")
+            elif rq.kind == "call":
                 # mechanism class: which client-side call options were set x is the optional ArgumentsKw element on the wire
                 cls = "/%s/%s" % ("+".join(k for k in ("details", "on_progress") if opts.get(k)) or "plain",
                                   "kwargs-absent" if kwargs is None else "kwargs-present")
@@ -1269,6 +1506,8 @@ class Run:
         from autobahn.wamp.types import CallResult
         R = self.R
         R.count("completions_compared")
+        if rq.reentrant:
+            R.count("reentrant_completions_compared")
         tag, val = rq.outcome.results[-1]
         kind = rq.kind
         base = "%s/reply-%s" % (kind, mode)
@@ -1276,9 +1515,33 @@ class Run:
             if tag != "err":
                 self.v(base + "/resolved-instead-of-rejected", "an ERROR reply resolved the future with %s" % short(val))
                 return
+            mapped = self.mapped_class(st["error"])
+            if mapped is not None:
+                # the URI is mapped to an exception class: an instance built from THIS reply's payload (only possible when the payload
+                # fits the constructor), or the generic ApplicationError carrying the reply's URI/args/kwargs
+                cname, ecls = mapped
+                want = self.error_fit(cname, args or [], kwargs or {})
+                default = st["error"] not in self.defs
+                R.count("mapped_error_replies_compared")
+                R.count("mapped_error_fits" if want is not None else "mapped_error_misfits")
+                if default:
+                    R.count("default_mapped_error_replies")
+                R.seen("mapped_error_classes", "%s:%s:%s" % ("library-" + ecls.__name__ if default else cname, "fits" if want is not None else "misfit", kind))
+                if isinstance(val, ecls) and not isinstance(val, ApplicationError):
+                    got = {"a": list(val.args)} if cname == "plain" else getattr(val, "c04", None)
+                    if want is None:
+                        self.v(base + "/wrong-content/mapped-class-payload", "%s built although the ERROR's payload %s %s does not fit its constructor: holds %s" % (
+                            ecls.__name__, short(args), short(kwargs), short(got)))
+                    elif not strict_eq(got, want):
+                        self.v(base + "/wrong-content/mapped-class-payload", "%s holds %s, the ERROR carried %s %s (expected %s)" % (
+                            ecls.__name__, short(got), short(args), short(kwargs), short(want)))
+                    R.count("mapped_class_instances_compared")
+                    return
             if not isinstance(val, ApplicationError):
                 self.v(base + "/wrong-content/exception-class", "ERROR reply produced %s" % short(val))
                 return
+            if mapped is not None:
+                R.count("mapped_error_generic_compared")
             if val.error != st["error"]:
                 self.v(base + "/wrong-content/uri", "ApplicationError.error=%r, the ERROR carried %r" % (val.error, st["error"]))
             if not strict_eq(list(val.args), args or []):
@@ -1387,7 +1650,7 @@ class Run:
         snap = self.snap()
         if st.get("then") and st["then"]["n"] not in self.reqs:
             self.arm_nested(rq, "handler", st["then"])
-        self.rp.send(msg)
+        self.deliver(msg)
         if self.failed():
             self.v("event/transport-failed", "an EVENT for a live subscription failed the transport: %r" % (self.failed(),), msg=short(msg))
             self.dead = True
@@ -1434,7 +1697,7 @@ class Run:
         snap = self.snap()
         if st.get("then") and st["then"]["n"] not in self.reqs:
             self.arm_nested(rq, "handler", st["then"])
-        self.rp.send(msg)
+        self.deliver(msg)
         if self.failed():
             self.v("invocation/transport-failed", "an INVOCATION for a live registration failed the transport: %r" % (self.failed(),), msg=short(msg))
             self.dead = True
@@ -1611,7 +1874,16 @@ class Run:
             self.v("escaped/%s/%s" % (getattr(e, "where", name).split(":")[0], type(e.exc).__name__), "exception reached the framework: %r" % (e,))
         s = getattr(self, "s", None)
         if s is not None and getattr(s, "user_errors", None):
-            for msg, val in s.user_errors[:3]:
+            # a mapped exception class that cannot be built from an ERROR's payload is reported through onUserError (once per such reply)
+            allowed = self.misfit_errors
+            unexpected = []
+            for msg, val in s.user_errors:
+                if allowed > 0 and msg.startswith("While re-constructing exception"):
+                    allowed -= 1
+                    R.count("mapped_error_construction_failures_reported")
+                else:
+                    unexpected.append((msg, val))
+            for msg, val in unexpected[:3]:
                 self.v("user-error/%s" % msg.split(" <")[0][:40], "onUserError fired: %s / %s" % (msg, val))
         if self.nontrivial:
             R.seen("nontrivial", [self.fw, self.cfg, self.case["steps"]])
